@@ -1101,6 +1101,18 @@ func tableWindow(v ssa.Value, env map[*ssa.Parameter]ssa.Value, depth int) (tbl 
 		return
 	case *ssa.Slice:
 		base := resolve(x.X)
+		if inner, ok := base.(*ssa.Slice); ok {
+			// a window of a window: whatever the arithmetic, it is not the one form whose alignment is evident
+			if t2, _, _, _, _ := tableWindow(inner, env, depth+1); t2 != nil {
+				return t2, nil, nil, nil, "the table is cut in two steps (not table[f(min) : f(max)+1])"
+			}
+			if ld, ok := resolve(inner.X).(*ssa.UnOp); ok && ld.Op == token.MUL {
+				if g, ok := ld.X.(*ssa.Global); ok {
+					return g, nil, nil, nil, "the table is cut in two steps (not table[f(min) : f(max)+1])"
+				}
+			}
+			return nil, nil, nil, nil, ""
+		}
 		ld, ok := base.(*ssa.UnOp)
 		if !ok || ld.Op != token.MUL {
 			return nil, nil, nil, nil, ""
